@@ -39,14 +39,15 @@ Record case := Case {
   c_cache : list cert;
   c_next : nat;
   c_obs0 : obs;
-  c_hist : list (event * obs)
+  c_hist : list (event * obs);
+  c_final : obs     (* after the context was cancelled and all jobs / passes ran to their end *)
 }.
 
 Definition get_case : dec case :=
   k <- get_nat ;; o <- get_list get_bool ;; d <- get_bool ;;
   st <- get_list (get_pair get_nat get_cert) ;; ca <- get_list get_cert ;; nx <- get_nat ;;
-  o0 <- get_obs ;; h <- get_list (get_pair get_event get_obs) ;;
-  ret (Case k o d st ca nx o0 h).
+  o0 <- get_obs ;; h <- get_list (get_pair get_event get_obs) ;; fin <- get_obs ;;
+  ret (Case k o d st ca nx o0 h fin).
 
 Definition od_of (c : case) (n : name) : bool := nth n (c_od c) false.
 Definition init_of (c : case) : state := State (c_store c) (c_cache c) [] [] [] [] [] (c_next c) false.
@@ -70,8 +71,11 @@ Definition first_diff (c : case) : option (nat * obs) :=
 Definition model_agrees (c : case) : bool :=
   wf_b (od_of c) (c_k c) (init_of c) && match first_diff c with None => true | Some _ => false end.
 
+Definition last_obs (c : case) : obs := last (map snd (c_hist c)) (c_obs0 c).
+
 Definition spec_ok (c : case) : bool :=
-  spec_run (od_of c) (c_idue c) (c_k c) [] (c_obs0 c) (c_hist c).
+  spec_run (od_of c) (c_idue c) (c_k c) [] (c_obs0 c) (c_hist c) &&
+  spec_final (od_of c) (c_k c) (last_obs c) (c_final c).
 
 Definition check_line (l : list Z) : Z :=
   match decode get_case l with
@@ -102,6 +106,7 @@ Definition explain_line (l : list Z) : list Z :=
       (match spec_first_fail (od_of c) (c_idue c) (c_k c) [] (c_obs0 c) (c_hist c) 0 with
        | None => [-1]
        | Some (i, cl) => [zn i; zn cl]
-       end)
+       end) ++
+      [if spec_final (od_of c) (c_k c) (last_obs c) (c_final c) then 1 else 0]
   | None => []
   end.
